@@ -69,6 +69,13 @@ pub fn run(out: &mut Out) {
             l(vec![l(sym.transformations().iter().map(iop).collect())]),
         ]);
         out.case("C17", call("info", vec![z(i as i128)]), info, "corr:tables-T2", true);
+        out.case(
+            "C17",
+            call("group", vec![z(i as i128), l(sym.transformations().iter().map(iop).collect())]),
+            y("ok"),
+            "prop:operators-form-a-group",
+            true,
+        );
         // absolute operators = fractional with translations scaled by the cell edges
         let cell = UnitCell::new(4.0, 8.0, 16.0, 90.0, 90.0, 90.0);
         let abs_ok = sym.transformations().iter().zip(sym.transformations_absolute(&cell).iter()).all(|(f, a)| {
